@@ -31,6 +31,15 @@ def run(ctx):
                     for b in ("full", "eq", "ineq", "all"): matrix.append((sc, ix, b, pc))
     N = 10 if ctx.quick() else 60
     base = [D.gen_W(rng, "t%d" % i, nmax=8) for i in range(N)]
+    # every second problem is followed by update(new values of some blocks, always P) and a second solve: the update path
+    # (value copies, re-scaling, KKT refresh) must be scalar-generic too
+    for i, c in enumerate(base):
+        if i % 2: continue
+        pb = G.with_patterns(c.pbs[1]) if "patP" not in c.pbs[1] else c.pbs[1]
+        pb2, names = G.perturb(rng, pb, {"P"} | set(k for k in ("c", "A", "G", "h", "lb", "ub") if rng.random() < 0.3), strong=True)
+        c.ops = [G.op_setup(pb) if "patP" not in c.pbs[1] else c.ops[0], c.ops[1], G.op_update(pb2, names, reuse=(rng.random() < 0.6)), G.op_solve()]
+        c.pbs = {0: pb, 1: pb, 2: pb2, 3: pb2}
+        c.tags.append("update")
     specs = [spine.build_impl(ctx, b, pc, scalar=sc, idx=("int" if ix == "int" else "ll")) for (sc, ix, b, pc) in matrix]
     specs.append(spine.build_impl(ctx, "dense", "ruiz", scalar="double"))
     built = vlib.build_many(ctx, specs)
@@ -40,7 +49,7 @@ def run(ctx):
     if refexe:
         cf = os.path.join(ctx.work, "ref.cases"); open(cf, "w").write("".join(c.text() for c in base))
         rc, o = vlib.run_bin(refexe, cf)
-        for cname, lines in vlib.parse_obs(o).items(): ref[cname] = D.per_op(lines).get(1, {})
+        for cname, lines in vlib.parse_obs(o).items(): ref[cname] = D.per_op(lines)
     nrun = 0
     for (sc, ix, b, pc), (exe, msg) in zip(matrix, built[:-1]):
         tag = "%s/%s/%s/%s" % (sc, ix, b, pc)
@@ -57,19 +66,19 @@ def run(ctx):
             ctx.violation("C18.run T=%s I=%s backend=%s precond=%s" % (sc, ix, b, pc), "instantiation crashed: rc=%d %s" % (rc, o[-400:]), {"instantiation": tag, "cases": open(cf).read()[:3000]}); continue
         ctx.ob(obn, "compile+run", True, "")
         obs = vlib.parse_obs(o)
-        for c in cases:
-            ob = D.per_op(obs.get(c.name, [])).get(1)
-            if not ob: continue
+        for c, opno in [(c_, k_) for c_ in cases for k_ in (1, 3)]:
+            ob = D.per_op(obs.get(c.name, [])).get(opno)
+            if not ob or ob.get("op") != "solve": continue
             nrun += 1
-            V = oracles.check_result(c.pbs[1], dict(c.settings), ob, exact=False, slack=SLACK[sc])
+            V = oracles.check_result(c.pbs[opno], dict(c.settings), ob, exact=False, slack=SLACK[sc])
             for code, m in V:
                 if code.startswith("C09") and sc in ("float",): continue
                 ctx.violation("C18.%s T=%s I=%s backend=%s precond=%s" % (code, sc, ix, b, pc), "%s (%s, case %s): %s" % (code, tag, c.name, m), {"instantiation": tag, "case": c.text(), "observed": ob})
             if sc in ("longdouble", "mp100", "double"):
                 if ob.get("status") != "SOLVED":
-                    ctx.violation("C18.unsolved T=%s I=%s backend=%s precond=%s" % (sc, ix, b, pc), "class-W problem not solved at higher precision: %s" % ob.get("status"), {"instantiation": tag, "case": c.text()})
-                elif ref.get(c.name, {}).get("status") == "SOLVED":
-                    xr = oracles.pvec(ref[c.name]["x"]); xo = oracles.pvec(ob["x"])
+                    ctx.violation("C18.unsolved T=%s I=%s backend=%s precond=%s" % (sc, ix, b, pc), "class-W problem not solved at higher precision (solve op %d): %s" % (opno, ob.get("status")), {"instantiation": tag, "case": c.text()})
+                elif ref.get(c.name, {}).get(opno, {}).get("status") == "SOLVED":
+                    xr = oracles.pvec(ref[c.name][opno]["x"]); xo = oracles.pvec(ob["x"])
                     dx = max([abs(a - b_) for a, b_ in zip(xr, xo)] + [Fr(0)])
                     if dx > Fr(1, 10 ** 4) * (1 + max(abs(v) for v in xr)):
                         ctx.violation("C18.converge T=%s I=%s backend=%s precond=%s" % (sc, ix, b, pc), "solution at higher precision differs from the double optimum by %.3g" % float(dx), {"instantiation": tag, "case": c.text()})
